@@ -490,11 +490,13 @@ def main(argv=None):
             for prefix in r["frontier"]:
                 units.append(("shard", si, prefix))
             rep["frontier_s"] = round(_perf() - ts, 2)
-        if spaces:
+        fset = set()
+        for sp in spaces[:6]:
             try:
-                functions = _functions_executed(spaces[0])
+                fset.update(_functions_executed(sp, max_paths=2))
             except BaseException:
-                functions = []
+                pass
+        functions = sorted(fset)
         random.Random(seed).shuffle(units)
         units = [("canary", i) for i in range(len(canaries))] + [("lemma", i) for i in range(len(lemmas))] + units
         # 2. shards, canaries and lemmas over the worker pool
